@@ -389,6 +389,112 @@ def run_rt(ctx, r, drv, h, seed, waves, per, cfg, budget):
     return len(rts), recycled, after_dirty, migrated
 
 
+INH_CONFIGS_QUICK = [
+    {'name': 'inh-guard', 'opts': ['--pika:threads=4', '--pika:ini=pika.stacks.use_guard_pages=1'], 'sizes': DEFAULT_SIZES},
+    {'name': 'inh-sizes', 'opts': ['--pika:threads=3', '--pika:ini=pika.stacks.small_size=0x8000',
+                                   '--pika:ini=pika.stacks.medium_size=0x10000', '--pika:ini=pika.stacks.large_size=0x40000',
+                                   '--pika:ini=pika.stacks.huge_size=0x100000', '--pika:ini=pika.stacks.use_guard_pages=1'],
+     'sizes': [0x8000, 0x10000, 0x40000, 0x100000]},
+]
+INH_CONFIGS_THOROUGH = INH_CONFIGS_QUICK + [
+    {'name': 'inh-noguard', 'opts': ['--pika:threads=4', '--pika:ini=pika.stacks.use_guard_pages=0'], 'sizes': DEFAULT_SIZES},
+    {'name': 'inh-static-priority', 'opts': ['--pika:threads=4', '--pika:scheduler=static-priority', '--pika:ini=pika.stacks.use_guard_pages=1'], 'sizes': DEFAULT_SIZES},
+    {'name': 'inh-local', 'opts': ['--pika:threads=2', '--pika:scheduler=local', '--pika:ini=pika.stacks.use_guard_pages=1'], 'sizes': DEFAULT_SIZES},
+    {'name': 'inh-abp', 'opts': ['--pika:threads=4', '--pika:scheduler=abp-priority-fifo', '--pika:ini=pika.stacks.use_guard_pages=1'], 'sizes': DEFAULT_SIZES},
+    {'name': 'inh-lifo', 'opts': ['--pika:threads=1', '--pika:scheduler=local-priority-lifo', '--pika:ini=pika.stacks.use_guard_pages=1'], 'sizes': DEFAULT_SIZES},
+    {'name': 'inh-shared', 'opts': ['--pika:threads=4', '--pika:scheduler=shared-priority', '--pika:ini=pika.stacks.use_guard_pages=1'], 'sizes': DEFAULT_SIZES},
+]
+CLSN = ['small', 'medium', 'large', 'huge']
+
+
+def run_inherit(ctx, r, drv, h, seed, reps, cfg, budget):
+    """stack-size INHERITANCE (harness/c12_inherit.cpp, its own process): parents of every explicit class create children and
+    grandchildren with thread_stacksize::current through the staged and the immediate creation paths; monitor (independent
+    of the model): the child reports the parent's class and runs on a stack of the size configured for it, and can use 75 %
+    of that size (verified pattern; an overrun ends the process); DIFF against the extracted created_class / created_enum"""
+    cmd = [h, str(seed), str(reps)] + cfg['opts']
+    rc, out = sh(cmd, timeout=budget)
+    lines = out.split('\n')
+    args = {'harness': 'c12_inherit', 'cmd': cmd[1:], 'config': cfg['name']}
+    sizes = cfg['sizes']
+    info = [x for x in lines if x.startswith('INFO sizes=')]
+    if info:
+        got = [int(v, 16) for v in info[0].split(' ')[1].split('=')[1].split(',')]
+        if got != sizes:
+            r.hits.append(Hit('tie', 'C12:inherit:config', 'runtime reports stack sizes %s, configuration %s asked for %s' % (got, cfg['name'], sizes), dict(args)))
+            sizes = got
+    waves = [x for x in lines if x.startswith('WAVE ')]
+    recs = [x for x in lines if x.startswith('OUT INH ')]
+    done = any(x.startswith('DONE rc=0') for x in lines[-4:])
+    if rc != 0 or not done:
+        last = waves[-1] if waves else 'WAVE 0 parent=? path=unknown'
+        wf = fields(last, 2)
+        hang = [x for x in lines if x.startswith('HANG ')]
+        if hang:
+            r.hits.append(Hit('monitor', 'C12:rt:inherited_not_finished:' + wf.get('path', 'unknown'),
+                              'tasks created with thread_stacksize::current did not finish (config %s): %s' % (cfg['name'], hang[0]),
+                              dict(args, wave=last, tail=lines[-8:])))
+        else:
+            r.hits.append(Hit('monitor', 'C12:rt:inherited_stack_class_wrong:' + wf.get('path', 'unknown'),
+                              'the process died (status %d, config %s) in [%s] while children / grandchildren created with thread_stacksize::current '
+                              'were using 75 %% of the stack size configured for the class of their %s parent (stack overrun: the stack is smaller '
+                              'than the size the task reports, or not the task\'s own): %s'
+                              % (rc, cfg['name'], last, wf.get('parent', '?'), ' | '.join(l for l in lines[-5:] if l and not l.startswith('OUT INH'))[:400]),
+                              dict(args, wave=last, rc=rc, tail=lines[-8:])))
+    for x in [y for y in lines if y.startswith('OUT PARENT ')]:
+        r.hits.append(Hit('monitor', 'C12:rt:stack_size', 'a parent created with an explicit class does not run on a stack of that class (config %s): %s'
+                          % (cfg['name'], x), dict(args, observed=x)))
+    model_in, impl_out = [], []
+    n = 0
+    for x in recs:
+        f = fields(x)
+        key = cfg['name'] + ':' + x.split(' ')[2]
+        n += 1
+        r.evaluations += 1
+        pc = int(f['parent_cls'])
+        path = f['path']
+        r.count('INH:path=%s' % path)
+        r.count('INH:parent=%s' % (CLSN[pc] if pc >= 0 else 'none(os thread)'))
+        r.count('INH:gen=%s' % f['gen'])
+        if f['burn'] == '1':
+            r.count('INH:used_75pct_of_parent_class_size')
+        if pc >= 1:
+            r.nontrivial('%s:%s:%s' % (cfg['name'], seed, x.split(' ')[2]))
+        if pc >= 0:
+            if int(f['cls_enum']) != pc or int(f['stack_size'], 16) != sizes[pc]:
+                got_cls = CLSN[int(f['cls_enum'])] if 0 <= int(f['cls_enum']) < 4 else ('current(unresolved)' if f['cls_enum'] == '6' else f['cls_enum'])
+                r.hits.append(Hit('monitor', 'C12:rt:inherited_stack_class_wrong:' + path,
+                                  '%s of a %s task, created with thread_stacksize::current through path %s (%s), reports class %s and runs on a stack of '
+                                  '%s bytes; the parent\'s class is configured with %#x bytes (config %s)'
+                                  % ('child' if f['gen'] == '1' else 'grandchild', CLSN[pc], path,
+                                     'thread object created at once' if f['run_now'] == '1' else 'staged description converted by a worker',
+                                     got_cls, f['stack_size'], sizes[pc], cfg['name']), dict(args, observed=x)))
+            elif f['burn'] == '1' and f['canary_ok'] != '1':
+                r.hits.append(Hit('monitor', 'C12:rt:inherited_stack_canary:' + path,
+                                  'pattern written into 75 %% of the stack of a task created with thread_stacksize::current changed while the task was alive '
+                                  '(config %s): %s' % (cfg['name'], x[:300]), dict(args, observed=x)))
+        # model: created_class / created_enum (creator context = a task of the parent's class, or none; staged descriptions are
+        # converted by a worker outside any task)
+        model_in.append('IN CUR %s %s %s - c' % (key, 'R' if f['run_now'] == '1' else 'S', str(pc) if pc >= 0 else '-'))
+        impl_out.append('OUT CUR %s size=%x enum=%s' % (key, int(f['stack_size'], 16), f['cls_enum'] if f['cls_enum'] != '6' else 'current'))
+    if model_in:
+        rc2, mout = sh([drv], input='\n'.join(model_in) + '\n', timeout=600)
+        mouts = []
+        for y in mout.split('\n'):
+            if y.startswith('OUT CUR '):
+                q = y.split(' ')
+                fm = fields(y)
+                mouts.append('OUT CUR %s size=%x enum=%s' % (q[2], sizes[int(fm['cls'])] if int(fm['cls']) < 4 else 0, fm['enum']))
+        diffs, nn = diff_lines(ctx, impl_out, mouts)
+        r.traces += nn
+        for (k, a, b) in diffs[:5]:
+            r.hits.append(Hit('corr', 'C12:rt:inherit_correspondence', 'class of a task created with thread_stacksize::current: runtime and model '
+                              '(created_class / created_enum) differ (%s): impl [%s] model [%s]' % (k, a, b), dict(args, impl=a, model=b)))
+    if recs:
+        r.sample({'config': cfg['name'], 'stack_size_inheritance': recs[len(recs) // 2][:400]})
+    return n
+
+
 def run(ctx):
     r = Result()
     r.rule = ('SW: random register files (25% small values) and frames from VERIF_SEED, the real swapcontext_stack[2] is called '
@@ -396,13 +502,15 @@ def run(ctx):
               'FE/CX: the real x86_linux_context_impl (init, rebind_stack, reset_stack, swap_context) with 2-5 interleaved '
               'contexts of 5 stack sizes, guard pages on/off, canaries at depth 0-11, c12_regcheck around every yield; RT: waves '
               'of runtime tasks of the four classes (3+ configurations) with canaries, register checks, dirt left for the next '
-              'user of the object; non-trivial = SW case, CX context that yielded, RT task that migrated; distinct by input line')
+              'user of the object; INH: parents of the four explicit classes create children and grandchildren with thread_stacksize::current '
+              'through 6 creation paths (staged / created at once), each uses 75 % of the parent class\'s size; non-trivial = SW case, CX context that yielded, RT task that migrated; distinct by input line')
     ctx.build_pika()
     defines_tie(ctx, r)
     objdump_tie(ctx, r)
     drv = ctx.build_model('C12', 'ExtractC12.v', 'drv_c12.ml')
     h_sw = ctx.build_harness('c12_swap', 'c12_swap.cpp', extra=['-no-pie'])
     h_rt = ctx.build_harness('c12_rt', 'c12_rt.cpp')
+    h_inh = ctx.build_harness('c12_inherit', 'c12_inherit.cpp')
     quick = ctx.tier == 'quick'
     if ctx.replay:
         import json
@@ -416,6 +524,11 @@ def run(ctx):
             cfgs = [x for x in RT_CONFIGS_THOROUGH if x['name'] == rep.get('config')] or [RT_CONFIGS_QUICK[0]]
             run_rt(ctx, r, drv, h_rt, int(c[0]), int(c[1]), int(c[2]), cfgs[0], 600)
             return r
+        if rep.get('harness') == 'c12_inherit':
+            c = rep['cmd']
+            cfgs = [x for x in INH_CONFIGS_THOROUGH if x['name'] == rep.get('config')] or [INH_CONFIGS_QUICK[0]]
+            run_inherit(ctx, r, drv, h_inh, int(c[0]), int(c[1]), cfgs[0], 600)
+            return r
     run_swap(ctx, r, drv, h_sw, ctx.seed, 3000 if quick else 150000, 60 if quick else 4000, 300 if quick else 3000)
     tot = rec = dirty = mig = 0
     cfgs = RT_CONFIGS_QUICK if quick else RT_CONFIGS_THOROUGH
@@ -424,6 +537,11 @@ def run(ctx):
         for cfg in cfgs:
             n, a, b, c = run_rt(ctx, r, drv, h_rt, sd, 5 if quick else 15, 100, cfg, 120 if quick else 400)
             tot, rec, dirty, mig = tot + n, rec + a, dirty + b, mig + c
+    ninh = 0
+    for sd in seeds:
+        for cfg in (INH_CONFIGS_QUICK if quick else INH_CONFIGS_THOROUGH):
+            ninh += run_inherit(ctx, r, drv, h_inh, sd, 1 if quick else 3, cfg, 200 if quick else 600)
+    r.notes.append('stack-size inheritance: %d children / grandchildren created with thread_stacksize::current' % ninh)
     r.notes.append('runtime: %d tasks, %d on recycled objects (%d after a dirty predecessor), %d migrated' % (tot, rec, dirty, mig))
     if tot and (rec == 0 or dirty == 0 or mig == 0):
         r.notes.append('WARNING: coverage hole (no recycling / no migration observed)')
